@@ -394,6 +394,59 @@ def canon (h : Heap) (roots : List Nat) : String :=
   "r=" ++ ",".intercalate (roots.map (numOf order)) ++ " " ++
     ";".intercalate (order.map fun x => match h[x]? with | some n => showNode order n | none => "?")
 
+/-! ### Structured canonical form and the DECIDED isomorphism test (`canonEq`)
+
+`canon` above is text: good for comparing with what the harness prints for the REAL objects, but text equality is only
+a proxy of `Iso` (printing is not injective for arbitrary class / scalar strings, and `canonFuel` is a constant).
+`canonEq` is the same depth-first numbering kept as data, with a fuel that provably suffices for every heap, and with
+the closedness check built in. `Props/C04Canon.lean` proves `canonEq h r h' r' = true ↔ Iso h r h' r'` for ALL heaps and
+root lists with no side condition: dangling references below a root make both sides false; addresses are list positions,
+so there are no duplicate addresses by construction (the driver's parser rejects case lines whose oids are not 0,1,2,…). -/
+
+/-- the successors of address `x` (none for an address outside the heap) -/
+def tg (h : Heap) (x : Nat) : List Nat := match h[x]? with | some n => n.targets | none => []
+
+/-- a number of stack pops that always suffices: every root is popped once, every reference cell is pushed at most
+once because a node is expanded at most once (`Props/C04Canon.lean: dfs_closed`, `dfs_fuel_stable`) -/
+def dfsFuel (h : Heap) (roots : List Nat) : Nat :=
+  roots.length + ((List.range h.length).map fun x => (tg h x).length).sum
+
+/-- nodes reachable from the roots in order of first visit — complete for every heap -/
+def reach (h : Heap) (roots : List Nat) : List Nat := dfsOrder h (dfsFuel h roots) roots []
+
+/-- depth-first number of `x` (`order.length` if it was not visited) -/
+def idxOf (order : List Nat) (x : Nat) : Nat := order.findIdx (· == x)
+
+def Ref.renum (order : List Nat) : Ref → Ref
+  | .none => .none
+  | .one t => .one (idxOf order t)
+  | .many ts => .many (ts.map (idxOf order))
+
+/-- what the property observes of one node: class and scalars, reference fields with depth-first numbers -/
+def cnode (h : Heap) (order : List Nat) (x : Nat) : Option (Label × List Ref) :=
+  (h[x]?).map fun n => (n.lab, n.refs.map (Ref.renum order))
+
+/-- canonical form as data: numbers of the roots, observed nodes in depth-first order -/
+def canonForm (h : Heap) (roots : List Nat) : List Nat × List (Option (Label × List Ref)) :=
+  let order := reach h roots
+  (roots.map (idxOf order), order.map (cnode h order))
+
+/-- every reachable address holds a node (no dangling reference below a root, no dangling root) -/
+def closedFrom (h : Heap) (roots : List Nat) : Bool := (reach h roots).all fun x => (h[x]?).isSome
+
+/-- **the decided property relation**: rooted-graph isomorphism preserving classes, scalars, field order, aliasing
+and cycles. (Closedness of the right-hand side follows from equal forms, so it is tested on the left only.) -/
+def canonEq (h : Heap) (roots : List Nat) (h' : Heap) (roots' : List Nat) : Bool :=
+  decide (canonForm h roots = canonForm h' roots') && closedFrom h roots
+
+/-- what the driver prints as `model=`: the text of the result graph, made to agree with the DECIDED relation — it
+equals the `spec=` text exactly when `canonEq` holds (`C04_verdict`). The middle branch (equal text, not isomorphic)
+can only be a printing collision; it is reported as such instead of being passed as agreement. -/
+def verdictText (h : Heap) (roots : List Nat) (out : Heap) (roots' : List Nat) : String :=
+  if canonEq h roots out roots' then canon h roots
+  else if canon out roots' == canon h roots then "error:canon-text-collision"
+  else canon out roots'
+
 /-! ### The relational store -/
 
 inductive Dir where
